@@ -389,6 +389,44 @@ def doc_alias_checks(mon, rec):
                                   {'kind': 'doc', 'ident': o.ident})
 
 
+KW_KEYS = ['a', 'myVar', 'my_var', 'x_', 'from_', 'to_list', 'toList', 'A1', 'CamelCase', 'snake_case_name', 'b__']
+
+
+def open_kwargs_checks(mon, rec):
+    """functions that take open keyword arguments (let; zipLongest's default) receive exactly the names the
+    caller wrote - directly, through call() with a literal mapping and through call() with a host mapping"""
+    for key in KW_KEYS:
+        forms = [('keyword', 'let(%s => 5) -> $%s' % (key, key), {}),
+                 ('call()+keyword', 'call(let, [], {%s => 5}) -> $%s' % (key, key), {}),
+                 ('call()+host-mapping', 'call(let, [], $kw) -> $%s' % key, {'kw': cat.var(yutils.FrozenDict({key: 5}))}),
+                 ('call()+positional+keyword', 'call(let, [7], {%s => 5}) -> [$1, $%s]' % (key, key), {}),
+                 ('mixed', 'let(7, %s => 5) -> [$1, $%s]' % (key, key), {})]
+        outs = []
+        for label, text, vars_ in forms:
+            out = mon.run(text, vars_)
+            outs.append((label, text, out))
+            rec.count('open_kwargs.cases')
+            rec.case(('open-kwargs', text), nontrivial=True)
+        want = {'keyword': ('value', 5), 'call()+keyword': ('value', 5), 'call()+host-mapping': ('value', 5),
+                'call()+positional+keyword': ('value', [7, 5]), 'mixed': ('value', [7, 5])}
+        for label, text, out in outs:
+            if out != want[label]:
+                rec.violation('spellings-disagree:let@system.let:%s' % label,
+                              '%s gives %r; the binding named %r must be visible under exactly that name (%r expected)' % (
+                                  text, out, key, want[label]), {'kind': 'open-kwargs', 'key': key})
+    # names that differ only by the convention are different names for an open-kwargs function
+    for text, want in (('let(my_var => 1, myVar => 2) -> [$my_var, $myVar]', ('value', [1, 2])),
+                       ('call(let, [], {my_var => 1, myVar => 2}) -> [$my_var, $myVar]', ('value', [1, 2])),
+                       ('[1].zipLongest([2, 3], default => 0).toList()', ('value', [[1, 2], [0, 3]])),
+                       ('call(zipLongest, [[2, 3]], {default => 0}, [1]).toList()', ('value', [[1, 2], [0, 3]]))):
+        out = mon.run(text, {})
+        rec.count('open_kwargs.cases')
+        rec.case(('open-kwargs', text), nontrivial=True)
+        if out != want:
+            rec.violation('spellings-disagree:open-kwargs:distinct-names', '%s gives %r, expected %r' % (text, out, want),
+                          {'kind': 'open-kwargs', 'key': text})
+
+
 def family_groups(mon, rec, rng, count):
     """user-defined signatures (hidden parameters at any position, defaults, keyword-only, *args) registered alone
     under the name f: every spelling of a call must bind the same arguments"""
@@ -444,6 +482,7 @@ def run_shard(spec, rec):
         if spec['kind'] == 'kinds':
             kind_checks(mon, rec)
             doc_alias_checks(mon, rec)
+            open_kwargs_checks(mon, rec)
             return
         if spec['kind'] == 'families':
             family_groups(mon, rec, rng_for(spec['seed'], 'c12', spec['name']), spec['count'])
@@ -472,6 +511,9 @@ def replay(data, rec):
             kind_checks(mon, rec)
         elif data['kind'] == 'doc':
             doc_alias_checks(mon, rec)
+        elif data['kind'] == 'open-kwargs':
+            open_kwargs_checks(mon, rec)
+            rec.violations = [v for v in rec.violations if v['replay'].get('key') == data.get('key')][:3]
         else:
             for o in mon.overloads:
                 if o.ident != data['ident']:
